@@ -163,7 +163,15 @@ class ShardedIterable(types.Recoverable, Iterable[_T]):
       raise ValueError(f'num_shards must be positive, got {self._shard_state=}')
 
   def shard(self, shard_index: int, num_shards: int) -> Self:
-    return dc.replace(self, _shard_state=ShardConfig(shard_index, num_shards))
+    # Sharding a shard further splits the elements of this shard, element i of
+    # shard (j, m) has the index j + m * i in the original iterable.
+    current = self._shard_state
+    shard_state = ShardConfig(
+        current.shard_index + current.num_shards * shard_index,
+        current.num_shards * num_shards,
+        current.start_index,
+    )
+    return dc.replace(self, _shard_state=shard_state)
 
   @property
   def state(self) -> ShardConfig:
